@@ -39,6 +39,8 @@ struct Task {
     bool in_call = false;    // inside a PKCS#11 call
     bool in_act = false;     // inside a composite harness action (atomic under the 'call' policy)
     int yord = 0;            // yield ordinal inside the current op
+    std::vector<int> ymutex;   // per op: yield ordinals that are mutex operations (placement of long pre-emptions)
+    int wmax_nth = -1; long wmax_size = 0;   // per op: ordinal and size of the largest write(2) request (fault placement)
     long parked_until = -1;  // parked (see Run::parks) until R.call_yields reaches this value
     std::map<std::string, int> fs_nth;  // per op: fs kind -> ordinal
     std::vector<std::pair<int, uint64_t>> preempts;  // (op, edge-in-op) sorted
